@@ -1,6 +1,6 @@
 (* C10 — property theorems only. Each is closed by `exact` of a lemma proved in Proofs.v /
    ProofsConc.v / Orig.v and is followed by Print Assumptions. *)
-From C10 Require Import Model Spec Proofs Orig ModelConc ProofsConc.
+From C10 Require Import Model Spec Proofs Orig ModelConc ProofsConc ProofsKey.
 From Coq Require Import Sorting.Sorted.
 
 (* (1) The outcome of a call depends only on the methods defined at that moment: for EVERY
@@ -61,7 +61,7 @@ Print Assumptions C10_effective_order.
 
 (* (b) an :around method without call-next-method: no other method runs, its value is returned *)
 Theorem C10_effective_around_declines : forall cs a rest v,
-  prims cs <> [] -> wraps cs = a :: rest -> b_calls a = [] ->
+  prims cs <> [] -> wraps cs = a :: rest -> b_fail a = false -> b_calls a = [] ->
   effective cs v = (Ev (b_id a) v :: (if b_nmp a then [EvNmp true] else []) ++ [EvEnd (b_id a)], RVal (b_id a)).
 Proof. exact effective_around_declines. Qed.
 Print Assumptions C10_effective_around_declines.
@@ -69,14 +69,47 @@ Print Assumptions C10_effective_around_declines.
 (* (c) an :around method with two call-next-method forms, the second with changed arguments: the
    rest of the effective method runs twice, the second time on the changed arguments, and the
    value of the second run is returned *)
-Theorem C10_effective_around_twice : forall cs a rest f v tr1 r1 tr2 r2,
-  prims cs <> [] -> wraps cs = a :: rest -> b_nmp a = false -> b_calls a = [[]; f] ->
+Theorem C10_effective_around_twice : forall cs a rest f c1 c2 v tr1 r1 tr2 r2,
+  prims cs <> [] -> wraps cs = a :: rest -> b_nmp a = false -> b_fail a = false -> b_calls a = [([], c1); (f, c2)] ->
   let inner := spec_inner (befores cs) (prims cs) (afters cs) in
   spec_arounds rest inner v = (tr1, r1) -> is_err r1 = false ->
   spec_arounds rest inner (xor_args v f) = (tr2, r2) -> is_err r2 = false ->
   effective cs v = (Ev (b_id a) v :: tr1 ++ tr2 ++ [EvEnd (b_id a)], r2).
 Proof. exact effective_around_twice. Qed.
 Print Assumptions C10_effective_around_twice.
+
+(* (c') call-next-method walks the same order after an error: when the first call-next-method
+   of an :around method, wrapped in ignore-errors, is ended by an error signalled further in, the
+   second one runs the same next methods again - also the less specific :around methods the
+   failed attempt had entered - and its value is returned *)
+Theorem C10_effective_retry_after_error : forall cs a rest f c2 v tr1 r1 tr2 r2,
+  prims cs <> [] -> wraps cs = a :: rest -> b_nmp a = false -> b_fail a = false -> b_calls a = [([], true); (f, c2)] ->
+  let inner := spec_inner (befores cs) (prims cs) (afters cs) in
+  spec_arounds rest inner v = (tr1, r1) -> catchable r1 = true ->
+  spec_arounds rest inner (xor_args v f) = (tr2, r2) -> is_err r2 = false ->
+  effective cs v = (Ev (b_id a) v :: tr1 ++ tr2 ++ [EvEnd (b_id a)], r2).
+Proof. exact effective_retry_after_error. Qed.
+Print Assumptions C10_effective_retry_after_error.
+
+(* ... on a concrete history (failing primary, two :around methods, two attempts), where the model
+   of the code agrees with S *)
+Theorem C10_retry_example :
+  wf_ops ct_num 1 ops_retry /\
+  snd (run ct_num (new_aux 1) ops_retry) =
+    [None; None; None;
+     Some ([Ev 3 [false]; Ev 2 [false]; Ev 1 [false]; Ev 2 [false]; Ev 1 [false]; EvEnd 3], RNil)]%N /\
+  snd (run ct_num (new_aux 1) ops_retry) = spec_run ct_num [] ops_retry.
+Proof. exact retry_example. Qed.
+Print Assumptions C10_retry_example.
+
+(* (e) a primary that signals an error: the condition unwinds through every running method *)
+Theorem C10_effective_primary_fails : forall cs p ps v,
+  prims cs = p :: ps -> b_fail p = true -> Forall once (wraps cs) ->
+  effective cs v =
+    (evs (wraps cs) v ++ evs (befores cs) v ++ Ev (b_id p) v :: (if b_nmp p then [EvNmp (negb (is_nil ps))] else []),
+     RErr (b_id p)).
+Proof. exact effective_primary_fails. Qed.
+Print Assumptions C10_effective_primary_fails.
 
 (* (d) call-next-method in a primary runs the next most specific primary; in the least specific
    one next-method-p is false and call-next-method signals no-next-method (no :after method runs) *)
@@ -88,7 +121,7 @@ Proof. exact effective_primary_chain. Qed.
 Print Assumptions C10_effective_primary_chain.
 
 Theorem C10_effective_primary_no_next : forall cs p f v,
-  wraps cs = [] -> prims cs = [p] -> b_calls p = [f] ->
+  wraps cs = [] -> prims cs = [p] -> b_fail p = false -> b_calls p = [(f, false)] ->
   effective cs v = (evs (befores cs) v ++ Ev (b_id p) v :: (if b_nmp p then [EvNmp false] else []), RNoNext).
 Proof. exact effective_primary_no_next. Qed.
 Print Assumptions C10_effective_primary_no_next.
@@ -232,3 +265,29 @@ Theorem C10_concurrent_example :
   map fst (g_log g) = [0; 1; 2; 0; 1; 2; 0; 1; 2; 0; 2].
 Proof. split; [exact (proj1 example_schedule)|split; [exact (proj1 (proj2 example_schedule))|exact (proj1 (proj2 (proj2 example_schedule)))]]. Qed.
 Print Assumptions C10_concurrent_example.
+
+(* (12) The cache key. With the key function of Aux.Call as a parameter: for EVERY key function
+   that gives arguments with different precedence lists different keys, every history answers
+   the cache-free semantics; the key of the code (first entry of each precedence list) is such a
+   function; a key function that answers "list" for a cons cell too is refuted (the call on the
+   cons cell reuses the effective method computed for the proper list). *)
+Theorem C10_cache_transparent_for_separating_keys : forall kf ct n ops,
+  separates kf ct n -> 1 <= n -> forall a, wf_ops ct n ops -> Inv_k kf ct n a ->
+  snd (run_k kf ct a ops) = pure_run ct (methods a) ops.
+Proof. exact run_k_cache_transparent. Qed.
+Print Assumptions C10_cache_transparent_for_separating_keys.
+
+Theorem C10_code_key_separates : forall ct n,
+  separates spec_key ct n /\ forall ops a, run_k spec_key ct a ops = run ct a ops.
+Proof. intros ct n. split; [apply spec_key_separates|apply run_k_spec_key]. Qed.
+Print Assumptions C10_code_key_separates.
+
+Theorem C10_collapsing_key_refuted :
+  wf_ops ct_list 1 ops_list_cons /\
+  snd (run_k kf_collapse ct_list (new_aux 1) ops_list_cons) =
+    [None; None; Some ([Ev 1 [false]], RVal 1); Some ([Ev 1 [false]], RVal 1)]%N /\
+  pure_run ct_list [] ops_list_cons =
+    [None; None; Some ([Ev 1 [false]], RVal 1); Some ([Ev 2 [false]], RVal 2)]%N /\
+  snd (run ct_list (new_aux 1) ops_list_cons) = pure_run ct_list [] ops_list_cons.
+Proof. exact collapsing_key_refuted. Qed.
+Print Assumptions C10_collapsing_key_refuted.
